@@ -515,3 +515,235 @@ pub fn mailbox(rng: &mut Rng) -> Program {
     g.gen_clients(&w, &Shape { clients: (1, 4), ops: (2, 8), final_wait_pct: 30 });
     g.prog
 }
+
+fn rand_entry(rng: &mut Rng, allow_stream: bool) -> Entry {
+    let plain = [Entry::Spawn, Entry::SpawnOwning, Entry::Builder, Entry::Builder, Entry::BuilderOwning, Entry::BuilderOwning, Entry::SpawnDefault, Entry::DefaultSpawnOwning];
+    let stream = [Entry::OnStream, Entry::OwningOnStream, Entry::BuilderOnStream, Entry::BuilderOnStreamOwning, Entry::BuilderWithStream, Entry::BuilderWithStreamOwning];
+    if allow_stream && rng.chance(1, 4) { *rng.pick(&stream) } else { *rng.pick(&plain) }
+}
+
+pub fn rand_stream(rng: &mut Rng) -> crate::actors::StreamSpec {
+    use crate::actors::StreamSpec;
+    match rng.below(6) {
+        0 => StreamSpec { bursts: vec![], repeat: false, ends: true, always_ready: false }, // empty
+        1 => StreamSpec { bursts: vec![(0, rng.range(1, 5) as u32)], repeat: false, ends: true, always_ready: false }, // finite, ready
+        2 => StreamSpec { bursts: vec![], repeat: false, ends: false, always_ready: false }, // never ready
+        3 => StreamSpec { bursts: vec![(*rng.pick(&LATTICE[1..]), 1)], repeat: true, ends: false, always_ready: false }, // ticking forever
+        4 => {
+            let n = rng.range(1, 3);
+            let bursts = (0..n).map(|_| (*rng.pick(&LATTICE), rng.range(0, 3) as u32)).collect();
+            StreamSpec { bursts, repeat: false, ends: rng.chance(1, 2), always_ready: false }
+        }
+        _ => StreamSpec { bursts: vec![(*rng.pick(&LATTICE), rng.range(1, 4) as u32), (*rng.pick(&LATTICE[1..]), rng.range(1, 3) as u32)], repeat: false, ends: true, always_ready: false },
+    }
+}
+
+fn rand_actor(rng: &mut Rng, tag: u32, nclients: usize, allow_stream: bool) -> ActorDecl {
+    let mut a = ActorDecl::plain(tag);
+    a.entry = rand_entry(rng, allow_stream);
+    a.mailbox = mailbox_kind(rng);
+    if a.entry.stream() {
+        a.stream = Some(rand_stream(rng));
+        a.strategy = Strategy::NonRestartable;
+    } else if a.entry.builder() {
+        a.strategy = *rng.pick(&[Strategy::RestartOnly, Strategy::RestartOnly, Strategy::Recreate, Strategy::NonRestartable]);
+    }
+    // holders: random non-empty subset (or none when owning: only the OwningAddr exists)
+    let mut holders: Vec<u16> = (0..nclients as u16).filter(|_| rng.chance(2, 3)).collect();
+    if holders.is_empty() && !(a.entry.owning() && rng.chance(1, 2)) {
+        holders.push(rng.below(nclients as u64) as u16);
+    }
+    a.holders = holders;
+    a.owner = rng.below(nclients as u64) as u16;
+    if rng.chance(1, 3) {
+        let n = rng.range(1, 2);
+        a.started = rand_sstep_timers(rng, n);
+    }
+    if rng.chance(1, 6) {
+        a.started.push(SStep::Yield);
+    }
+    if rng.chance(1, 8) {
+        a.stopped.push(if rng.chance(1, 2) { SStep::Yield } else { SStep::Sleep(*rng.pick(&LATTICE)) });
+    }
+    a.aux_work = if rng.chance(1, 4) { *rng.pick(&LATTICE[..3]) } else { 0 };
+    a
+}
+
+/// profile "lifecycle": every termination cause x mailbox kind x strategy x plain/stream
+pub fn lifecycle(rng: &mut Rng) -> Program {
+    let mut g = G::new(rng);
+    let nclients = g.rng.range(1, 3) as usize;
+    let nact = g.rng.weighted(&[70, 30]) + 1;
+    for t in 0..nact {
+        let a = rand_actor(g.rng, 1 + t as u32, nclients, true);
+        g.prog.actors.push(a);
+    }
+    // recreate strategy of k=0 actors uses the default spec: one per program is enough (spec looked up by tag)
+    g.layout(nclients);
+    let mut w = W::zero();
+    w.send = 22;
+    w.call = 18;
+    w.ping = 6;
+    w.force_send = 3;
+    w.stop = 9;
+    w.halt = 5;
+    w.consume = 3;
+    w.consume_sync = 2;
+    w.restart = 6;
+    w.clone = 4;
+    w.downgrade = 5;
+    w.upgrade = 4;
+    w.conv = 6;
+    w.detach = 2;
+    w.to_addr = 2;
+    w.drop = 8;
+    w.drop_all = 2;
+    w.await_ = 5;
+    w.join = 4;
+    w.query = 2;
+    w.yield_ = 6;
+    w.sleep = 5;
+    w.fork = 2;
+    w.cancel_pct = 5;
+    w.s_none = 40;
+    w.s_yield = 14;
+    w.s_sleep = 16;
+    w.s_ctx_stop = 6;
+    w.s_ctx_restart = 5;
+    w.s_interval = 4;
+    w.s_interval_with = 3;
+    w.s_delayed_send = 3;
+    w.s_delayed_exec = 2;
+    w.s_weak_self = 2;
+    g.gen_clients(&w, &Shape { clients: (1, 3), ops: (2, 8), final_wait_pct: 60 });
+    g.prog
+}
+
+/// profile "handles": conversion / clone / drop programs with timers active
+pub fn handles(rng: &mut Rng) -> Program {
+    let mut g = G::new(rng);
+    let nclients = g.rng.range(1, 3) as usize;
+    let mut a = rand_actor(g.rng, 1, nclients, false);
+    if g.rng.chance(1, 2) {
+        let n = g.rng.range(1, 3);
+        a.started = rand_sstep_timers(g.rng, n);
+    }
+    g.prog.actors.push(a);
+    g.layout(nclients);
+    let mut w = W::zero();
+    w.send = 10;
+    w.call = 8;
+    w.ping = 4;
+    w.force_send = 3;
+    w.clone = 10;
+    w.downgrade = 12;
+    w.upgrade = 14;
+    w.conv = 16;
+    w.detach = 4;
+    w.to_addr = 4;
+    w.drop = 22;
+    w.drop_all = 5;
+    w.yield_ = 6;
+    w.sleep = 6;
+    w.fork = 6;
+    w.query = 3;
+    w.s_none = 50;
+    w.s_yield = 10;
+    w.s_sleep = 15;
+    w.s_interval = 5;
+    w.s_interval_with = 4;
+    w.s_delayed_send = 4;
+    w.s_delayed_exec = 3;
+    w.s_weak_self = 6;
+    g.gen_clients(&w, &Shape { clients: (1, 3), ops: (3, 10), final_wait_pct: 0 });
+    // make sure everything is eventually dropped by some clients while others linger
+    for c in 0..g.prog.clients.len() {
+        if g.rng.chance(1, 2) {
+            let d = g.dur();
+            g.prog.clients[c].push(Op::Sleep(d));
+            g.prog.clients[c].push(Op::DropAll);
+            // probe weak handles after the drop
+            g.prog.clients[c].push(Op::Yield);
+        }
+    }
+    g.prog
+}
+
+/// profile "backpressure": bounded n in 0..4 (some unbounded), 1-4 senders, slow handlers
+pub fn backpressure(rng: &mut Rng) -> Program {
+    let mut g = G::new(rng);
+    let nclients = g.rng.range(1, 4) as usize;
+    let mut a = ActorDecl::plain(1);
+    a.mailbox = if g.rng.chance(1, 5) { None } else { Some(g.rng.below(5) as usize) };
+    a.entry = Entry::Builder;
+    a.holders = (0..nclients as u16).collect();
+    if g.rng.chance(1, 3) {
+        let d = g.dur_pos();
+        a.started = vec![if g.rng.chance(1, 2) { SStep::IntervalWith(d) } else { SStep::Interval(d) }];
+    }
+    a.aux_work = if g.rng.chance(1, 3) { 1 } else { 0 };
+    g.prog.actors.push(a);
+    g.layout(nclients);
+    let mut w = W::zero();
+    w.send = 60;
+    w.call = 8;
+    w.ping = 4;
+    w.force_send = 4;
+    w.conv = 10;
+    w.downgrade = 3;
+    w.upgrade = 3;
+    w.stop = 2;
+    w.yield_ = 4;
+    w.sleep = 3;
+    w.cancel_pct = 4;
+    w.s_none = 25;
+    w.s_yield = 15;
+    w.s_sleep = 40;
+    w.s_interval_with = 3;
+    g.gen_clients(&w, &Shape { clients: (1, 4), ops: (3, 9), final_wait_pct: 0 });
+    g.prog
+}
+
+/// profile "owning": owning entries with join / consume / detach at any position
+pub fn owning(rng: &mut Rng) -> Program {
+    let mut g = G::new(rng);
+    let nclients = g.rng.range(1, 3) as usize;
+    let mut a = rand_actor(g.rng, 1, nclients, true);
+    a.entry = match (a.entry.stream(), g.rng.below(3)) {
+        (true, 0) => Entry::OwningOnStream,
+        (true, 1) => Entry::BuilderOnStreamOwning,
+        (true, _) => Entry::BuilderWithStreamOwning,
+        (false, 0) => Entry::SpawnOwning,
+        (false, 1) => Entry::DefaultSpawnOwning,
+        (false, _) => Entry::BuilderOwning,
+    };
+    g.prog.actors.push(a);
+    g.layout(nclients);
+    let mut w = W::zero();
+    w.send = 18;
+    w.call = 14;
+    w.ping = 4;
+    w.stop = 8;
+    w.halt = 3;
+    w.consume = 8;
+    w.consume_sync = 6;
+    w.restart = 3;
+    w.conv = 6;
+    w.detach = 8;
+    w.to_addr = 8;
+    w.drop = 6;
+    w.join = 16;
+    w.await_ = 3;
+    w.yield_ = 5;
+    w.sleep = 4;
+    w.fork = 3;
+    w.cancel_pct = 8;
+    w.s_none = 40;
+    w.s_yield = 15;
+    w.s_sleep = 20;
+    w.s_ctx_stop = 8;
+    w.s_ctx_restart = 3;
+    w.s_interval = 3;
+    g.gen_clients(&w, &Shape { clients: (1, 3), ops: (2, 8), final_wait_pct: 70 });
+    g.prog
+}
